@@ -50,6 +50,9 @@ func Unquote(types ...string) Option {
 }
 
 func unquote(s string) (string, error) {
+	if len(s) < 2 {
+		return "", strconv.ErrSyntax
+	}
 	quote := s[0]
 	s = s[1 : len(s)-1]
 	if quote == '`' {
